@@ -444,7 +444,7 @@ func (r *wrun) shape(root []byte) any {
 			kid, w := walk(n.Child)
 			return []any{"S", ints(n.Key), kid}, w
 		case 'B':
-			var kids []any
+			kids := []any{} // (never nil: a stored branch without children must reach the specification as such)
 			total := int64(0)
 			for i, k := range n.Kids {
 				if k == nil {
